@@ -157,30 +157,28 @@ Theorem uuid_accepts_generated_raw h :
 Proof. exact (uuid_raw_generated_l h). Qed.
 Print Assumptions uuid_accepts_generated_raw.
 
-(* FINDING (uuid/accepts-corrupted 38-byte form): the bytes in the place of the
-   braces are never examined; witness X6ba7b810-9dad-11d1-80b4-00c04fd430c8Y *)
-Theorem uuid_brace_corruption_refuted :
-  exists u b1 b2, length u = 36%nat /\ accept_uuid u = true /\ b1 <> 123 /\ b2 <> 125 /\
-    accept_uuid (b1 :: u ++ [b2]) = true.
-Proof. exact uuid_brace_refuted_l. Qed.
-Print Assumptions uuid_brace_corruption_refuted.
+(* the 38-byte form is accepted exactly when the middle is and the first and last
+   byte are the braces; so a brace replaced by anything else is rejected
+   (X6ba7b810-9dad-11d1-80b4-00c04fd430c8Y) *)
+Theorem uuid_braces_are_checked u b1 b2 :
+  length u = 36%nat -> accept_uuid (b1 :: u ++ [b2]) = (b1 =? 123) && (b2 =? 125) && accept_uuid u.
+Proof. exact (uuid_braces_l u b1 b2). Qed.
+Print Assumptions uuid_braces_are_checked.
 
-(* in fact for every first and last byte *)
-Theorem uuid_braces_never_examined u b1 b2 :
-  length u = 36%nat -> accept_uuid (b1 :: u ++ [b2]) = accept_uuid u.
-Proof. exact (uuid_braces_unchecked_l u b1 b2). Qed.
-Print Assumptions uuid_braces_never_examined.
+Theorem uuid_rejects_brace_corruption u b1 b2 :
+  length u = 36%nat -> b1 <> 123 \/ b2 <> 125 -> accept_uuid (b1 :: u ++ [b2]) = false.
+Proof. exact (uuid_brace_corruption_l u b1 b2). Qed.
+Print Assumptions uuid_rejects_brace_corruption.
 
-(* what remains true: corruption anywhere but the braces is rejected — a
-   hexadecimal position overwritten by a non-hexadecimal byte, a hyphen position by
-   anything else, in the canonical and in the 38-byte form; and every length other
-   than 32, 36, 38, 45 *)
-Theorem uuid_rejects_corruption_partial u i b :
+(* corruption anywhere else is rejected too: a hexadecimal position overwritten by a
+   non-hexadecimal byte, a hyphen position by anything else, in the canonical and in
+   the 38-byte form; and every length other than 32, 36, 38, 45 *)
+Theorem uuid_rejects_corruption u i b :
   length u = 36%nat ->
   (In i uuid_hex_pos /\ is_xdigit b = false) \/ (In i uuid_dash_pos /\ b <> 45) ->
   accept_uuid (set_at i b u) = false /\ forall b1 b2, accept_uuid (b1 :: set_at i b u ++ [b2]) = false.
 Proof. exact (uuid_partial_l u i b). Qed.
-Print Assumptions uuid_rejects_corruption_partial.
+Print Assumptions uuid_rejects_corruption.
 
 Theorem uuid_rejects_wrong_length s :
   length s <> 36%nat -> length s <> 45%nat -> length s <> 38%nat -> length s <> 32%nat ->
